@@ -52,7 +52,10 @@ class Protocol(with_metaclass(HTTPSemantic)):
 		match = self.PROTOCOL_RE.match(protocol)
 		if match is None:
 			raise InvalidLine(_(u"Invalid HTTP protocol: %r"), protocol.decode('ISO8859-1'))
-		self.__protocol = (int(match.group(2)), int(match.group(3)))
+		try:
+			self.__protocol = (int(match.group(2)), int(match.group(3)))
+		except ValueError:  # more digits than the interpreter converts (sys.get_int_max_str_digits)
+			raise InvalidLine(_(u"Invalid HTTP protocol: %r"), protocol.decode('ISO8859-1')[:64])
 		self.name = match.group(1)
 
 	def compose(self) -> bytes:
